@@ -791,7 +791,9 @@ class C04(Check):
             "collector, callback (falling back through mapper.fallback_mapper and through the "
             "caller's own reference)} and their cached variants; combine and collector instances are "
             "called again, after the whole tree, on every distinct subtree and on the whole tree "
-            "(instance history). Non-trivial = composite tree / class "
+            "(instance history); the dispatch matrix also over four node classes with TWO bases (a trait "
+            "class with its own handler name, or a plain mix-in, before Variable / Sum). "
+            "Non-trivial = composite tree / class "
             "with at least one handler; distinct = distinct (case) descriptors.")
     assumptions = [
         "the resolution order is restated from the statement over type(expr).__mro__; the "
